@@ -11,6 +11,7 @@ JOBS = [
  _j("u32.b2", "h_rt_u32", "format -> lex -> decode, base 2", _FULL % 32, defines=["RTBASE=2"], tier="thorough", unwind=37),
  _j("u64.b16", "h_rt_u64", "format -> lex -> decode, 64 bit base 16", _FULL % 64, defines=["RTBASE=16"], tier="thorough", unwind=21),
  _j("i32.b10.bounded", "h_rt_i32", "signed decimal round trip", "|value| <= 99999 only (decimal value exactness is not decided on the full domain, see C14)", kind="B", defines=["VALMAX=99999"], unwind=14),
+ _j("hexdouble", "h_rt_hex_double", "#H literal -> double exact (through the 64-bit integer path)", "all values below 2^53, loops fully unwound", props=["C04", "C07"], unwind=21),
  _j("bool", "h_rt_bool", "boolean round trip", "both values", unwind=13),
  _j("text", "h_rt_text", "quoted text with both quote characters, blanks and letters: doubling o lexing o un-doubling = identity", "text of 0..4 characters over {\" ' a blank}", kind="B", unwind=14),
  _j("block", "h_rt_block", "definite-length block with arbitrary bytes", "0..3 data bytes, all byte values", kind="B", unwind=13),
